@@ -86,6 +86,49 @@ def refs_in(e, out):
                 refs_in(y, out)
 
 
+def all_path_components(m):
+    """Every name that occurs anywhere in a reference path of the module (a.b.c contributes a, b and c)."""
+    out = set()
+
+    def walk(e):
+        if not isinstance(e, tuple) or not e:
+            return
+        if e[0] in ("r", "present", "size") and len(e) > 1 and isinstance(e[1], (tuple, list)):
+            out.update(x for x in e[1] if isinstance(x, str))
+            return
+        for x in e[1:]:
+            if isinstance(x, tuple):
+                walk(x)
+            elif isinstance(x, list):
+                for y in x:
+                    walk(y)
+
+    def of_struct(st):
+        for f in st.fields:
+            for g in [f] + (f.anon or []):
+                for e in (g.start, g.size, g.cond, g.value, g.requires):
+                    if e is not None:
+                        walk(e)
+                if g.typ is not None:
+                    for a in g.typ.args:
+                        walk(a)
+                    for d in g.typ.dims:
+                        if d is not None:
+                            walk(d)
+                if g.inline is not None and isinstance(g.inline, M.Struct):
+                    of_struct(g.inline)
+        if st.requires is not None:
+            walk(st.requires)
+        for sub in getattr(st, "subtypes", []) or []:
+            if isinstance(sub, M.Struct):
+                of_struct(sub)
+
+    for t in m.types:
+        if isinstance(t, M.Struct):
+            of_struct(t)
+    return out
+
+
 def struct_refs(st):
     """name -> set of same-struct names its location/condition/value mention; and the set of all referenced names."""
     deps = {}
@@ -146,8 +189,12 @@ def mark_text_output(rnd, m):
             st.fields.append(f)
             if getattr(st, "static_size", None) is not None:
                 st.static_size = None
+    # a field that anything depends on - also through a member path from another structure (f11.b4) -
+    # must stay in the text, or the text cannot be read back
+    everywhere = all_path_components(m)
     for st in [t for t in m.types if isinstance(t, M.Struct)]:
         deps, allrefs = struct_refs(st)
+        allrefs = allrefs | everywhere
         for f in st.fields:
             if f.is_anon or f.inline is not None or f.is_virtual:
                 continue
